@@ -54,12 +54,23 @@ def sched_parts(pid: str, tier: str):
         mons = ("C02",)
         mk("whole-run-N3", Cfg(N=3, resources="tma", activation=True, kwargs=False, monitors=mons), base_req + ["w_deactivated"], 600)
         mk("whole-run-N3-kwargs-async", Cfg(N=3, resources="ta", flavours="a", kwargs=True, sym_seq=False, monitors=mons), base_req, 600)
+        from harness.dataflow import DCfg, run_dataflow
+
+        # the values clause on the front end: what a node receives through keyword / indexed / nested-DAG plumbing
+        parts.append(Part("received-values-programs", P(run_dataflow, DCfg(focus="C20", depth=2, budget=2)), {"what": "arguments received by nodes (keyword, indexed, unpacked, through nested DAGs) equal the plain evaluation",
+                          "deviation budget": 2, "nesting depth": 2}, 900, 7, ["w_sub", "w_call"], FRONT_FUNCS))
         if not q:
             mk("whole-run-N4", Cfg(N=4, resources="tma", max_async=1, activation=False, monitors=mons), base_req, 1500, 9)
     elif pid == "C03":
         mons = ("C03",)
         mk("whole-run-N3-selection", Cfg(N=3, resources="tm", selection=True, activation=True, sym_seq=False, monitors=mons), base_req + ["w_deactivated"], 600)
         mk("whole-run-N3-all-resources", Cfg(N=3, resources="tma", monitors=mons), base_req, 600)
+        from harness.graph import GCfg, run_c13
+        from harness.history import HCfg, run_c11
+
+        # "nothing else runs": disabled / unreachable debug nodes and already-set-up nodes are not entered
+        parts.append(Part("debug-nodes-N3", P(run_c13, GCfg(N=3, setup=False, activation=False, combined=False)), {"N": 3, "what": "debug nodes run only when enabled and only with their inputs available"}, 900, 5, ["w_debug_ran"], GRAPH_FUNCS))
+        parts.append(Part("setup-histories-len3-N2", P(run_c11, HCfg(N=2, length=3, flavours="s")), {"N": 2, "length": 3, "what": "an already-set-up node is not entered again"}, 900, 8, ["w_reuse"], HIST_FUNCS))
         if not q:
             mk("whole-run-N4-selection", Cfg(N=4, resources="tm", selection=True, sym_seq=False, monitors=mons), base_req, 1500, 9)
     elif pid == "C04":
@@ -94,8 +105,15 @@ def sched_parts(pid: str, tier: str):
             mk("whole-run-N4", Cfg(N=4, resources="tm", sym_prio=False, monitors=mons), base_req, 1500, 9)
     elif pid == "C09":
         mons = ("C09",)
-        mk("whole-run-N3-faults", Cfg(N=3, resources="tma", faults=2, activation=True, monitors=mons), base_req + ["w_fault"], 600)
+        mk("whole-run-N3-one-fault", Cfg(N=3, resources="tma", faults=1, monitors=mons), base_req + ["w_fault"], 600)
+        mk("whole-run-N3-activation", Cfg(N=3, resources="ta", activation=True, monitors=mons), base_req + ["w_deactivated"], 600)
+        mk("whole-run-N3-two-faults", Cfg(N=3, resources="ta", faults=2, sym_seq=False, monitors=mons), base_req + ["w_fault"], 600)
+        from harness.history import HCfg, run_c15
+
+        # "never returns normally while a selected active node has not run": executor runs after a failed run
+        parts.append(Part("executor-histories-len2", P(run_c15, HCfg(length=2, flavours="sa")), {"length": "2+1", "what": "an executor re-run after a failed run runs its complete selection or refuses"}, 900, 8, ["w_final_call"], HIST_FUNCS))
         if not q:
+            mk("whole-run-N3-two-faults-activation", Cfg(N=3, resources="tma", faults=2, activation=True, monitors=mons), base_req + ["w_fault"], 1500)
             mk("whole-run-N4", Cfg(N=4, resources="tma", max_async=1, faults=1, monitors=mons), base_req, 1500, 9)
     elif pid == "C14":
         mons = ("C14",)
@@ -256,6 +274,9 @@ def history_parts(pid: str, tier: str):
              "final operation": "a call with fresh symbolic arguments"}
         parts.append(Part("histories-len3", P(run_c15, HCfg(length=3, flavours="s")), dict(b, length="3+1"), 900, 8, ["w_final_call", "w_failed_call", "w_refused_rerun", "w_rerun_after_failure", "w_compose", "w_config"], HIST_FUNCS))
         parts.append(Part("histories-len3-async", P(run_c15, HCfg(length=3, flavours="a")), dict(b, length="3+1", flavour="async"), 900, 8, ["w_final_call", "w_rerun_after_failure"], HIST_FUNCS))
+        from harness.history import run_c18
+
+        parts.append(Part("cache-executors-single-use-N2", P(run_c18, HCfg(N=2, length=2, flavours="s")), {"N": 2, "what": "an executor started from a cache refuses a second run"}, 900, 8, ["w_deps_of_restart"], HIST_FUNCS))
         if not q:
             parts.append(Part("histories-len4", P(run_c15, HCfg(length=4, flavours="s")), dict(b, length="4+1"), 2400, 9, ["w_final_call"], HIST_FUNCS))
     elif pid == "C18":
